@@ -28,7 +28,12 @@ for d, _, files in os.walk(base):
         rep[dst] = src
 for j in sorted(glob.glob(os.path.join(work, "seams", "*.json"))):
     rep.update(json.load(open(j))["Replace"])
-out = os.path.join(work, "overlay.json")
+extra = os.environ.get("VERIF_EXTRA_OVERLAY")
+name = "overlay.json"
+if extra:
+    rep.update(json.load(open(extra))["Replace"])
+    name = "overlay." + os.environ.get("VERIF_BIN_SUFFIX", "x") + ".json"
+out = os.path.join(work, name)
 tmp = out + f".{os.getpid()}.tmp"
 json.dump({"Replace": rep}, open(tmp, "w"), indent=1, sort_keys=True)
 os.replace(tmp, out)
